@@ -75,4 +75,5 @@ c102342 C03
 e78a7a8 C08
 1be5d5d C08
 cf8d1d2 C01
+0a9359e C04
 LIST
